@@ -70,6 +70,18 @@ def extract(repo):
            "  scope : Scope       -- the item under the cursor / every listed item", "  kind : Kind", "  deriving DecidableEq, Repr", ""]
     for name, g, sc, k in rows:
         out += ["/-- `fn %s` -/" % name, "def %s : Act := { guarded := %s, scope := %s, kind := %s }" % (name, g, sc, k), ""]
+    # EventHandler::handle: which method each selection event calls
+    i = src.find("impl EventHandler for Selection")
+    hb = norm(R.fn_body(src[i:], "handle")[0]) if i >= 0 else ""
+    arms = dict(re.findall(r"EvAct(Toggle|ToggleAll|SelectAll|DeselectAll) => \{ self\.(act_\w+)\(\); \}", hb))
+    methods = [r[0] for r in rows]
+    if sorted(arms) != ["DeselectAll", "SelectAll", "Toggle", "ToggleAll"] or any(v not in methods for v in arms.values()):
+        raise R.Unsupported("Selection::handle: the arms of EvActToggle / ToggleAll / SelectAll / DeselectAll are not understood")
+    out += ["/-- the selection events of `EventHandler::handle` -/",
+            "inductive Ev | toggle | toggleAll | selectAll | deselectAll", "  deriving DecidableEq, Repr", "",
+            "/-- the method each of them calls -/", "def handleArm : Ev → Act",
+            "  | .toggle => %s" % arms["Toggle"], "  | .toggleAll => %s" % arms["ToggleAll"],
+            "  | .selectAll => %s" % arms["SelectAll"], "  | .deselectAll => %s" % arms["DeselectAll"], ""]
     # append_sorted_items: the watermark bookkeeping around `pre_select` and the append (statement by statement, _rustfn)
     A = {"current_run_num()": ("run", "Nat"), "items.is_empty()": ("batchEmpty", "Bool"),
          "self.latest_select_run_num": ("latest", "Nat"), "self.pre_selected_watermark": ("wm", "Nat"),
